@@ -2,6 +2,7 @@ package sym
 
 import (
 	"fmt"
+	"math/rand"
 	"go/constant"
 	"go/token"
 	"go/types"
@@ -72,6 +73,7 @@ type Interp struct {
 	ex     *Explorer
 	solver *Solver
 
+	rand     *rand.Rand // non-nil: random-concrete mode (translator validation)
 	objNames map[*Value]string
 	ptrIDs   map[*Value]int
 	allocs   []*Term
